@@ -117,3 +117,14 @@ func validatorSpec(sch *spec.Schema, inst any, root string, formats strfmt.Regis
 	}
 	return hx.Outcome{Valid: res.IsValid(), Errors: hx.SortedMsgs(res.Errors), Warnings: hx.SortedMsgs(res.Warnings)}, res
 }
+
+// compositeMsgs flattens the error returned by the one-shot entry point into sorted messages.
+func compositeMsgs(e error) []string {
+	if e == nil {
+		return nil
+	}
+	if ce, ok := e.(*errors.CompositeError); ok {
+		return hx.SortedMsgs(ce.Errors)
+	}
+	return []string{e.Error()}
+}
